@@ -5,22 +5,6 @@ From RV Require Import Update.Model Update.Proofs.
 Local Open Scope N_scope.
 
 (* ------------------------------------------------------------------ *)
-(* well-formed cases: what the grammar and the store guarantee          *)
-
-(* DELETE templates and DELETE WHERE contain no blank nodes (grammar) *)
-Definition no_bnode (tm : tmpl) : bool :=
-  forallb (fun b => is_nil (labels_of (snd b))) (blocks tm).
-Definition op_wf (o : uop) : bool :=
-  match o with
-  | DeleteWhere tm _ => no_bnode tm
-  | Modify _ _ _ (Some d) _ _ => no_bnode d
-  | _ => true
-  end.
-(* every graph that holds a quad is known to the store (Memory.add) *)
-Definition wf (c : case) : Prop :=
-  (forall q, In q (c_quads c) -> In (snd q) (c_known c)) /\ forallb op_wf (c_ops c) = true.
-
-(* ------------------------------------------------------------------ *)
 (* generic list facts                                                   *)
 
 Lemma fold_left_ext' {A B} (f g : A -> B -> A) l : (forall a b, In b l -> f a b = g a b) ->
@@ -67,112 +51,23 @@ Proof. destruct l; simpl; congruence. Qed.
 (* ------------------------------------------------------------------ *)
 (* templates: the model's instantiation is the specification's          *)
 
-Lemma inst_pos_ext fr fr' mu p :
-  (forall x, pos_label p x = true -> fr x = fr' x) -> inst_pos fr mu p = inst_pos fr' mu p.
+Lemma m_target_eq dg mu g : m_target dg mu g = s_target dg mu g.
+Proof. reflexivity. Qed.
+
+Lemma m_quads_eq e ins k i dg tm mu : m_quads e ins k i dg tm mu = s_quads e ins k i dg tm mu.
 Proof.
-  destruct p as [t|v|x]; simpl; auto. intros H. rewrite (H x); auto. apply N.eqb_refl.
+  unfold m_quads, s_quads. apply flat_map_ext'. intros [g ts] _. simpl.
+  rewrite m_target_eq. destruct (s_target dg mu g); auto. unfold to_graph, sfresh.
+  destruct ins; simpl; [reflexivity|]. rewrite filter_all by (intros; reflexivity). reflexivity.
 Qed.
 
-Lemma fill_ext fr fr' mu ts :
-  (forall x, In x (labels_of ts) -> fr x = fr' x) -> fill fr mu ts = fill fr' mu ts.
+Lemma m_all_eq e ins k dg tm om : m_all e ins k dg tm om = s_all e ins k dg tm om.
 Proof.
-  intros H. unfold fill. apply flat_map_ext'. intros [[a b] c] Htp.
-  assert (E : inst_tpat fr mu (a, b, c) = inst_tpat fr' mu (a, b, c)).
-  { unfold inst_tpat.
-    assert (L : forall p, In p [a; b; c] -> inst_pos fr mu p = inst_pos fr' mu p).
-    { intros p Hp. apply inst_pos_ext. intros x Hx. apply H. unfold labels_of. apply in_flat_map.
-      exists (a, b, c). split; auto. apply in_flat_map. exists p. split; auto.
-      destruct p as [t|v|y]; simpl in *; try discriminate. apply N.eqb_eq in Hx. left; auto. }
-    rewrite (L a), (L b), (L c); simpl; auto. }
-  rewrite E. reflexivity.
-Qed.
-
-Lemma labels_nil_fill fr fr' mu ts : labels_of ts = [] -> fill fr mu ts = fill fr' mu ts.
-Proof. intros H. apply fill_ext. rewrite H. intros x []. Qed.
-
-Lemma blocks_enum_In tm jb : In jb (enum_from 0 (blocks tm)) -> In (snd jb) (blocks tm).
-Proof. apply enum_from_snd. Qed.
-
-(* deletions: no labels, nothing skipped *)
-Lemma m_quads_del e k i dg tm mu : no_bnode tm = true ->
-  m_quads false k i dg tm mu = s_quads e false k i dg tm mu.
-Proof.
-  intros Hn. unfold m_quads, s_quads. apply flat_map_enum. intros [j [g ts]] Hjb. simpl.
-  assert (Hl : labels_of ts = []).
-  { apply is_nil_true. unfold no_bnode in Hn. rewrite forallb_forall in Hn.
-    apply (Hn (g, ts)). apply (blocks_enum_In tm (j, (g, ts))). exact Hjb. }
-  assert (Ht : m_target false dg mu g = s_target dg mu g).
-  { destruct g as [[c|v]|]; simpl; auto; try (destruct (lookup v mu); auto). }
-  rewrite Ht. destruct (s_target dg mu g); auto.
-  rewrite filter_all by (intros; reflexivity). unfold to_graph.
-  rewrite (labels_nil_fill (fresh k i j) (sfresh k i tm) mu ts Hl). reflexivity.
-Qed.
-
-Lemma m_all_del e k dg tm om : opt_tm (fun t => negb (no_bnode t)) tm = false ->
-  m_all false k dg tm om = s_all e false k dg tm om.
-Proof.
-  destruct tm as [t|]; simpl; auto. intros H. apply negb_false_iff in H.
-  apply flat_map_ext'. intros im _. apply m_quads_del. exact H.
-Qed.
-
-(* insertions, outside the regions of F10c, F10d, F10e *)
-Lemma existsb_false {A} (f : A -> bool) l x : existsb f l = false -> In x l -> f x = false.
-Proof.
-  intros H Hx. destruct (f x) eqn:E; auto. assert (existsb f l = true); [|congruence].
-  apply existsb_exists. exists x. auto.
-Qed.
-
-Lemma m_quads_ins e k i dg tm mu :
-  forallb (fun q => legal e (fst q)) (m_quads true k i 0 tm mu) = true ->
-  shared_label tm = false ->
-  existsb (fun jb => match fst (snd jb) with
-                     | Some (TGVar v) =>
-                         match lookup v mu with
-                         | None => negb (is_nil (fill (fresh k i (fst jb)) mu (snd (snd jb))))
-                         | Some _ => false
-                         end
-                     | _ => false
-                     end) (enum_from 0 (blocks tm)) = false ->
-  m_quads true k i dg tm mu = s_quads e true k i dg tm mu.
-Proof.
-  intros Hleg Hsh Hub. unfold m_quads, s_quads. apply flat_map_enum. intros [j [g ts]] Hjb. simpl.
-  assert (Hf : fill (fresh k i j) mu ts = fill (sfresh k i tm) mu ts).
-  { apply fill_ext. intros x Hx. unfold sfresh. f_equal.
-    unfold shared_label in Hsh. apply (existsb_false _ _ _ Hsh) in Hjb. simpl in Hjb.
-    apply (existsb_false _ _ _ Hjb) in Hx. apply negb_false_iff, N.eqb_eq in Hx. auto. }
-  assert (Hl : forall t, In t (fill (fresh k i j) mu ts) -> legal e t = true).
-  { intros t Ht. rewrite forallb_forall in Hleg.
-    destruct (m_target true 0 mu g) as [c|] eqn:Et.
-    - apply (Hleg (t, c)). unfold m_quads. apply in_flat_map. exists (j, (g, ts)). split; auto.
-      simpl. rewrite Et. apply in_map_iff. exists t. auto.
-    - destruct g as [[c|v]|]; simpl in Et; try discriminate. destruct (lookup v mu); discriminate. }
-  destruct g as [[c|v]|]; simpl.
-  - rewrite <- Hf. rewrite filter_all; auto.
-  - destruct (lookup v mu) eqn:El.
-    + rewrite <- Hf. rewrite filter_all; auto.
-    + apply (existsb_false _ _ _ Hub) in Hjb. simpl in Hjb. rewrite El in Hjb.
-      apply negb_false_iff, is_nil_true in Hjb. rewrite Hjb. reflexivity.
-  - rewrite <- Hf. rewrite filter_all; auto.
-Qed.
-
-Lemma m_all_ins e k dg tm om :
-  opt_tm (fun t => illegal_insert e k t om) tm = false ->
-  opt_tm (fun t => shared_label t && negb (is_nil om)) tm = false ->
-  opt_tm (fun t => unbound_graph k t om) tm = false ->
-  m_all true k dg tm om = s_all e true k dg tm om.
-Proof.
-  destruct tm as [t|]; simpl; auto. intros H1 H2 H3.
-  destruct om as [|mu0 om']; [reflexivity|].
-  rewrite andb_true_r in H2.
-  apply flat_map_ext'. intros im Him. apply m_quads_ins; auto.
-  - apply (existsb_false _ _ _ H1) in Him. apply negb_false_iff in Him. exact Him.
-  - apply (existsb_false _ _ _ H3) in Him. exact Him.
+  destruct tm as [t|]; simpl; auto. apply flat_map_ext'. intros im _. apply m_quads_eq.
 Qed.
 
 (* ------------------------------------------------------------------ *)
-(* the evaluators in the mode where ctx.graph is the default graph      *)
-
-Definition plain (e : env) : Prop := ctx_graph e = GCtx (dflt e).
+(* the evaluators                                                       *)
 
 Lemma add_blocks_eq qs : forall s,
   add_blocks qs s = add_quads (flat_map (fun b => to_graph (fst b) (snd b)) qs) s.
@@ -188,14 +83,16 @@ Proof.
   rewrite del_quads_app, <- g_isub_eq. apply IH.
 Qed.
 
+(* the front end has named graphs, or the operation needs none *)
+Definition scope (e : env) (o : uop) : Prop := has_dataset e = true \/ needs_dataset o = false.
+
 Definition step_ok (e : env) (k : N) (o : uop) (s : dstate) (a : qset) : Prop :=
   exists s', eval_op e k o s = Ok s' /\ qseteq (quads s') (spec_op e k o a) /\ kinv s'.
 
-Lemma insert_data_ok e k ts qs s a : plain e ->
-  has_dataset e = true \/ needs_dataset (InsertData ts qs) = false ->
+Lemma insert_data_ok e k ts qs s a : scope e (InsertData ts qs) ->
   kinv s -> qseteq (quads s) a -> step_ok e k (InsertData ts qs) s a.
 Proof.
-  intros Hp Hd Hk Ha. unfold step_ok. simpl. unfold evalInsertData. rewrite Hp. simpl.
+  intros Hd Hk Ha. unfold step_ok. simpl. unfold evalInsertData.
   exists (add_blocks qs (add_triples (dflt e) ts s)). split; [|split].
   - destruct Hd as [Hd|Hd]; [rewrite Hd; destruct (is_nil qs) eqn:E; auto|].
     + apply is_nil_true in E. subst. reflexivity.
@@ -205,12 +102,11 @@ Proof.
   - rewrite add_blocks_eq, add_triples_eq. apply kinv_add_quads, kinv_add_quads. auto.
 Qed.
 
-Lemma delete_data_ok e k ts qs s a : plain e ->
-  has_dataset e = true \/ needs_dataset (DeleteData ts qs) = false ->
+Lemma delete_data_ok e k ts qs s a : scope e (DeleteData ts qs) ->
   kinv s -> qseteq (quads s) a -> step_ok e k (DeleteData ts qs) s a.
 Proof.
-  intros Hp Hd Hk Ha. unfold step_ok. simpl. unfold evalDeleteData. rewrite Hp.
-  exists (sub_blocks qs (g_isub (GCtx (dflt e)) ts s)). split; [|split].
+  intros Hd Hk Ha. unfold step_ok. simpl. unfold evalDeleteData.
+  exists (sub_blocks qs (g_isub (dflt e) ts s)). split; [|split].
   - destruct Hd as [Hd|Hd]; [rewrite Hd; destruct (is_nil qs) eqn:E; auto|].
     + apply is_nil_true in E. subst. reflexivity.
     + simpl in Hd. apply negb_false_iff in Hd. rewrite Hd. apply is_nil_true in Hd. subst. reflexivity.
@@ -219,38 +115,37 @@ Proof.
   - rewrite sub_blocks_eq, g_isub_eq. apply kinv_del_quads, kinv_del_quads. auto.
 Qed.
 
-Lemma g_isub_eq' c ts s : g_isub (GCtx c) ts s = del_quads (map (fun t => (t, c)) ts) s.
+Lemma g_isub_eq' c ts s : g_isub c ts s = del_quads (map (fun t => (t, c)) ts) s.
 Proof. apply g_isub_eq. Qed.
 
 (* DELETE WHERE: the loop is the deletion of the template's quads *)
-Lemma dw_one_eq e k tm s im : plain e -> has_gvar tm = false ->
-  dw_one e k tm s im = del_quads (m_quads false k (fst im) (dflt e) tm (snd im)) s.
+Lemma dw_one_eq e k tm s im : has_gvar tm = false ->
+  dw_one e k tm s im = del_quads (m_quads e false k (fst im) (dflt e) tm (snd im)) s.
 Proof.
-  intros Hp Hg. unfold dw_one, m_quads, blocks. rewrite Hp. simpl.
+  intros Hg. unfold dw_one, m_quads, blocks. simpl.
   rewrite del_quads_app, <- g_isub_eq'.
-  generalize (g_isub (GCtx (dflt e)) (fill (fresh k (fst im) 0) (snd im) (t_triples tm)) s).
-  unfold has_gvar in Hg. revert Hg. change (N.succ 0) with 1. generalize 1.
-  induction (t_quads tm) as [|b r IH]; intros n Hg s0; simpl; auto.
+  generalize (g_isub (dflt e) (fill (fresh k (fst im)) (snd im) (t_triples tm)) s).
+  unfold has_gvar in Hg. revert Hg.
+  induction (t_quads tm) as [|b r IH]; intros Hg s0; simpl; auto.
   simpl in Hg. apply orb_false_iff in Hg. destruct Hg as [Hb Hr].
   rewrite del_quads_app. rewrite <- IH by auto. f_equal.
   destruct b as [[c|v] ts]; simpl in *; [|discriminate].
   rewrite g_isub_eq'. reflexivity.
 Qed.
 
-Lemma dw_fold_eq e k tm : plain e -> has_gvar tm = false -> forall om n s,
+Lemma dw_fold_eq e k tm : has_gvar tm = false -> forall om n s,
   fold_left (dw_one e k tm) (enum_from n om) s =
-  del_quads (flat_map (fun im => m_quads false k (fst im) (dflt e) tm (snd im)) (enum_from n om)) s.
+  del_quads (flat_map (fun im => m_quads e false k (fst im) (dflt e) tm (snd im)) (enum_from n om)) s.
 Proof.
-  intros Hp Hg. induction om as [|mu r IH]; intros n s; simpl; auto.
+  intros Hg. induction om as [|mu r IH]; intros n s; simpl; auto.
   rewrite del_quads_app. rewrite dw_one_eq by auto. simpl. apply IH.
 Qed.
 
-Lemma delete_where_ok e k tm om s a : plain e ->
-  has_dataset e = true \/ needs_dataset (DeleteWhere tm om) = false ->
-  op_kf e k (DeleteWhere tm om) = 0 -> no_bnode tm = true ->
+Lemma delete_where_ok e k tm om s a : scope e (DeleteWhere tm om) ->
+  op_kf e k (DeleteWhere tm om) = 0 ->
   kinv s -> qseteq (quads s) a -> step_ok e k (DeleteWhere tm om) s a.
 Proof.
-  intros Hp Hd Hkf Hn Hk Ha. unfold step_ok. simpl. unfold evalDeleteWhere.
+  intros Hd Hkf Hk Ha. unfold step_ok. simpl. unfold evalDeleteWhere.
   assert (E1 : negb (is_nil (t_quads tm)) && negb (has_dataset e) = false).
   { destruct Hd as [Hd|Hd]; [rewrite Hd; apply andb_false_r|]. simpl in Hd. rewrite Hd. reflexivity. }
   rewrite E1. simpl in Hkf.
@@ -259,59 +154,48 @@ Proof.
     destruct om as [|mu om']; [|simpl in Hkf; discriminate].
     exists s. split; [reflexivity|split; auto].
     intros q. rewrite qdiff_In. simpl. rewrite (Ha q). tauto.
-  - exists (del_quads (m_all false k (dflt e) (Some tm) om) s). split; [|split].
+  - exists (del_quads (m_all e false k (dflt e) (Some tm) om) s). split; [|split].
     + f_equal. simpl. apply dw_fold_eq; auto.
-    + intros q. rewrite del_quads_In, qdiff_In, (Ha q).
-      rewrite (m_all_del e) by (simpl; rewrite Hn; reflexivity). tauto.
+    + intros q. rewrite del_quads_In, qdiff_In, (Ha q), m_all_eq. tauto.
     + apply kinv_del_quads. auto.
 Qed.
 
-Lemma modify_ok e k w ud un d i om s a : plain e ->
-  has_dataset e = true \/ needs_dataset (Modify w ud un d i om) = false ->
-  op_kf e k (Modify w ud un d i om) = 0 -> op_wf (Modify w ud un d i om) = true ->
+Lemma modify_ok e k w ud un d i om s a : scope e (Modify w ud un d i om) ->
   kinv s -> qseteq (quads s) a -> step_ok e k (Modify w ud un d i om) s a.
 Proof.
-  intros Hp Hd Hkf Hwf Hk Ha. unfold step_ok. simpl.
+  intros Hd Hk Ha. unfold scope in Hd. unfold step_ok. simpl.
   set (dg := match w with Some c => c | None => dflt e end).
-  exists (add_quads (m_all true k dg i om) (del_quads (m_all false k dg d om) s)). split; [|split].
-  - unfold evalModify. rewrite Hp. destruct (has_dataset e) eqn:Hds; simpl.
+  exists (add_quads (m_all e true k dg i om) (del_quads (m_all e false k dg d om) s)). split; [|split].
+  - unfold evalModify. destruct (has_dataset e) eqn:Hds; simpl.
     + reflexivity.
     + destruct Hd as [Hd|Hd]; [discriminate|]. simpl in Hd.
       apply orb_false_iff in Hd. destruct Hd as [Hd Hi]. apply orb_false_iff in Hd. destruct Hd as [Hd Hdq].
       apply orb_false_iff in Hd. destruct Hd as [Hd Hun]. apply orb_false_iff in Hd. destruct Hd as [Hw Hud].
-      rewrite Hud. destruct w; [discriminate|]. subst dg.
-      destruct om as [|mu om']; [destruct d, i; reflexivity|].
-      rewrite Hdq, Hi. reflexivity.
-  - simpl in Hkf.
-    destruct (opt_tm (fun t => illegal_insert e k t om) i) eqn:K1; [discriminate|].
-    destruct (opt_tm (fun t => shared_label t && negb (is_nil om)) i) eqn:K2; [discriminate|].
-    destruct (opt_tm (fun t => unbound_graph k t om) i) eqn:K3; [discriminate|].
-    intros q. rewrite add_quads_In, del_quads_In, in_app_iff, qdiff_In, (Ha q).
-    rewrite (m_all_ins e) by auto.
-    rewrite (m_all_del e); [tauto|]. destruct d; simpl in *; auto. rewrite Hwf. reflexivity.
+      rewrite Hud. destruct w; [discriminate|]. subst dg. rewrite Hdq, Hi. reflexivity.
+  - intros q. rewrite add_quads_In, del_quads_In, in_app_iff, qdiff_In, (Ha q), !m_all_eq. tauto.
   - apply kinv_add_quads, kinv_del_quads. auto.
 Qed.
 
 (* graph management *)
 Lemma clear_list_In l : forall s q,
-  In q (quads (fold_left (fun s g => g_clear g s) (map GCtx l) s)) <-> In q (quads s) /\ ~ In (snd q) l.
+  In q (quads (fold_left (fun s c => g_clear c s) l s)) <-> In q (quads s) /\ ~ In (snd q) l.
 Proof.
   induction l as [|c r IH]; intros s q; simpl; [tauto|].
   rewrite IH, g_clear_In. intuition.
 Qed.
 
-Lemma clear_list_known l : forall s, known (fold_left (fun s g => g_clear g s) (map GCtx l) s) = known s.
+Lemma clear_list_known l : forall s, known (fold_left (fun s c => g_clear c s) l s) = known s.
 Proof. induction l as [|c r IH]; intros s; simpl; auto. rewrite IH. reflexivity. Qed.
 
-Lemma drop_list_In e l : forall s q,
-  In q (quads (fold_left (fun s g => remove_graph e g s) (map GCtx l) s)) <-> In q (quads s) /\ ~ In (snd q) l.
+Lemma drop_list_In l : forall s q,
+  In q (quads (fold_left (fun s c => remove_graph c s) l s)) <-> In q (quads s) /\ ~ In (snd q) l.
 Proof.
   induction l as [|c r IH]; intros s q; simpl; [tauto|].
-  rewrite IH. unfold forget; simpl. change (In q (quads (g_clear (GCtx c) s)) /\ ~ In (snd q) r <->
+  rewrite IH. unfold remove_graph, forget; simpl. change (In q (quads (g_clear c s)) /\ ~ In (snd q) r <->
     In q (quads s) /\ ~ (c = snd q \/ In (snd q) r)). rewrite g_clear_In. intuition.
 Qed.
 
-Lemma drop_list_kinv e l : forall s, kinv s -> kinv (fold_left (fun s g => remove_graph e g s) (map GCtx l) s).
+Lemma drop_list_kinv l : forall s, kinv s -> kinv (fold_left (fun s c => remove_graph c s) l s).
 Proof. induction l as [|c r IH]; intros s H; simpl; auto. apply IH. apply kinv_remove_graph. auto. Qed.
 
 Lemma contexts_known e s c : In c (known s) -> In c (contexts e s).
@@ -320,13 +204,13 @@ Proof.
   intros H. apply in_or_app. auto.
 Qed.
 
-Lemma same_ident_ctx e x y : same_ident e (GCtx x) (GCtx y) = N.eqb x y.
-Proof. reflexivity. Qed.
+Lemma dflt_dataset e : has_dataset e = true -> dflt e = 0.
+Proof. destruct e as [[k| |] u l b]; simpl; auto; discriminate. Qed.
 
 (* the graphs a CLEAR/DROP addresses, as a list of graph ids L with:
    a quad survives iff its graph is not in L *)
-Lemma graph_all_plain e g s : plain e -> has_dataset e = true \/ g = GDefault -> kinv s ->
-  exists l, graph_all e g s = Some (map GCtx l) /\
+Lemma graph_all_spec e g s : has_dataset e = true \/ g = GDefault -> kinv s ->
+  exists l, graph_all e g s = Some l /\
     forall q, In q (quads s) -> (In (snd q) l <->
       match g with
       | GDefault => snd q = dflt e
@@ -335,11 +219,11 @@ Lemma graph_all_plain e g s : plain e -> has_dataset e = true \/ g = GDefault ->
       | GIri c => snd q = c
       end).
 Proof.
-  intros Hp Hd Hk. unfold graph_all. rewrite Hp.
+  intros Hd Hk. unfold graph_all.
   destruct g as [| | |c].
   - exists [dflt e]. split; auto. intros q _. simpl. intuition.
-  - destruct Hd as [Hd|Hd]; [|discriminate]. rewrite Hd.
-    eexists. split; [reflexivity|]. intros q Hq. rewrite filter_In, negb_true_iff, same_ident_ctx, N.eqb_neq.
+  - destruct Hd as [Hd|Hd]; [|discriminate]. rewrite Hd, (dflt_dataset e Hd).
+    eexists. split; [reflexivity|]. intros q Hq. rewrite filter_In, negb_true_iff, N.eqb_neq.
     split; [tauto|]. intros H. split; auto. apply contexts_known. apply Hk. auto.
   - destruct Hd as [Hd|Hd]; [|discriminate]. rewrite Hd.
     eexists. split; [reflexivity|]. intros q Hq. split; auto. intros _. apply contexts_known. apply Hk. auto.
@@ -364,92 +248,108 @@ Proof.
   - apply drop_graph_In.
 Qed.
 
-Lemma clear_ok e k sl g s a : plain e ->
-  has_dataset e = true \/ needs_dataset (Clear sl g) = false ->
-  kinv s -> qseteq (quads s) a -> step_ok e k (Clear sl g) s a.
+Lemma clear_scope e sl g : scope e (Clear sl g) -> has_dataset e = true \/ g = GDefault.
+Proof. intros [H|H]; auto. right. destruct g; simpl in *; auto; discriminate. Qed.
+
+Lemma evalClear_ok e g s a : has_dataset e = true \/ g = GDefault ->
+  kinv s -> qseteq (quads s) a ->
+  exists s', evalClear e g s = Ok s' /\ qseteq (quads s') (spec_clear e g a) /\ kinv s'.
 Proof.
-  intros Hp Hd Hk Ha. unfold step_ok. simpl. unfold evalClear.
-  destruct (graph_all_plain e g s Hp) as [l [El Hl]]; auto.
-  { destruct Hd; auto. right. destruct g; simpl in *; auto; discriminate. }
-  rewrite El. simpl. eexists. split; [reflexivity|split].
+  intros Hd Hk Ha. unfold evalClear.
+  destruct (graph_all_spec e g s Hd Hk) as [l [El Hl]].
+  rewrite El. eexists. split; [reflexivity|split].
   - intros q. rewrite clear_list_In, spec_clear_In, <- (Ha q). split; intros [H1 H2]; split; auto.
     + rewrite <- (Hl q H1). auto.
     + rewrite (Hl q H1). auto.
   - intros q Hq. rewrite clear_list_known. apply clear_list_In in Hq. apply Hk. tauto.
 Qed.
 
-Lemma drop_ok e k sl g s a : plain e -> has_dataset e = true ->
-  kinv s -> qseteq (quads s) a -> step_ok e k (Drop sl g) s a.
+Lemma clear_ok e k sl g s a : scope e (Clear sl g) ->
+  kinv s -> qseteq (quads s) a -> step_ok e k (Clear sl g) s a.
 Proof.
-  intros Hp Hd Hk Ha. unfold step_ok. simpl. unfold evalDrop. rewrite Hd.
-  destruct (graph_all_plain e g s Hp) as [l [El Hl]]; auto.
-  rewrite El. simpl. eexists. split; [reflexivity|split].
-  - intros q. rewrite drop_list_In, spec_clear_In, <- (Ha q). split; intros [H1 H2]; split; auto.
-    + rewrite <- (Hl q H1). auto.
-    + rewrite (Hl q H1). auto.
-  - apply drop_list_kinv. auto.
+  intros Hd Hk Ha. unfold step_ok. simpl.
+  destruct (evalClear_ok e g s a (clear_scope e sl g Hd) Hk Ha) as [s' [E H]].
+  exists s'. rewrite E. simpl. auto.
 Qed.
 
-Lemma god_plain e g : plain e -> has_dataset e = true \/ g = DDefault ->
-  graph_or_default e g = Some (GCtx (gd_cid e g)).
+Lemma drop_ok e k sl g s a : scope e (Drop sl g) ->
+  kinv s -> qseteq (quads s) a -> step_ok e k (Drop sl g) s a.
 Proof.
-  intros Hp Hd. destruct g as [|c]; simpl; [rewrite Hp; auto|].
+  intros Hd Hk Ha. unfold step_ok. simpl. unfold evalDrop.
+  assert (Hd' : has_dataset e = true \/ g = GDefault) by (apply (clear_scope e sl); exact Hd).
+  destruct (has_dataset e) eqn:Hds.
+  - assert (Hx : has_dataset e = true \/ g = GDefault) by (left; exact Hds).
+    destruct (graph_all_spec e g s Hx Hk) as [l [El Hl]].
+    rewrite El. simpl. eexists. split; [reflexivity|split].
+    + intros q. rewrite drop_list_In, spec_clear_In, <- (Ha q). split; intros [H1 H2]; split; auto.
+      * rewrite <- (Hl q H1). auto.
+      * rewrite (Hl q H1). auto.
+    + apply drop_list_kinv. auto.
+  - (* a plain Graph: DROP is CLEAR *)
+    assert (Hx : has_dataset e = true \/ g = GDefault) by (destruct Hd' as [H|H]; [discriminate|right; exact H]).
+    destruct (evalClear_ok e g s a Hx Hk Ha) as [s' [E H]].
+    exists s'. rewrite E. simpl. auto.
+Qed.
+
+Lemma god_spec e g : has_dataset e = true \/ g = DDefault ->
+  graph_or_default e g = Some (gd_cid e g).
+Proof.
+  intros Hd. destruct g as [|c]; simpl; auto.
   destruct Hd as [Hd|Hd]; [rewrite Hd; auto|discriminate].
 Qed.
 
-Lemma iadd_from_ctx e x y s :
-  g_iadd_from e (GCtx y) (GCtx x) s = Ok (add_quads (to_graph y (q_triples (None, None, None) x (quads s))) s).
-Proof. unfold g_iadd_from. simpl. rewrite add_triples_eq. reflexivity. Qed.
+Lemma iadd_from_In y x s q :
+  In q (quads (g_iadd_from y x s)) <-> (snd q = y /\ In (fst q, x) (quads s)) \/ In q (quads s).
+Proof.
+  unfold g_iadd_from. rewrite add_triples_eq, add_quads_In, to_graph_In, q_triples_all_In. tauto.
+Qed.
 
-Lemma gd_scope e a b : has_dataset e = true \/ needs_dataset (Add false a b) = false ->
+Lemma kinv_iadd_from y x s : kinv s -> kinv (g_iadd_from y x s).
+Proof. intros H. unfold g_iadd_from. rewrite add_triples_eq. apply kinv_add_quads. auto. Qed.
+
+Lemma gd_scope e sl a b : scope e (Add sl a b) ->
   (has_dataset e = true \/ a = DDefault) /\ (has_dataset e = true \/ b = DDefault).
 Proof.
   intros [H|H]; auto. destruct a, b; simpl in H; try discriminate. auto.
 Qed.
 
-Lemma add_ok e k sl x y s a : plain e ->
-  has_dataset e = true \/ needs_dataset (Add sl x y) = false ->
+Lemma add_ok e k sl x y s a : scope e (Add sl x y) ->
   kinv s -> qseteq (quads s) a -> step_ok e k (Add sl x y) s a.
 Proof.
-  intros Hp Hd Hk Ha. destruct (gd_scope e x y Hd) as [Hx Hy].
-  unfold step_ok. simpl. unfold evalAdd. rewrite !god_plain by auto. rewrite same_ident_ctx.
+  intros Hd Hk Ha. destruct (gd_scope e sl x y Hd) as [Hx Hy].
+  unfold step_ok. simpl. unfold evalAdd. rewrite !god_spec by auto.
   destruct (N.eqb (gd_cid e x) (gd_cid e y)) eqn:E.
   - exists s. simpl. auto.
-  - rewrite iadd_from_ctx. simpl. eexists. split; [reflexivity|split].
-    + intros q. rewrite add_quads_In, in_app_iff, !to_graph_In, q_triples_all_In, graph_of_In, (Ha q).
+  - simpl. eexists. split; [reflexivity|split].
+    + intros q. rewrite iadd_from_In, in_app_iff, to_graph_In, graph_of_In, (Ha q).
       rewrite <- (Ha (fst q, gd_cid e x)). tauto.
-    + apply kinv_add_quads. auto.
+    + apply kinv_iadd_from. auto.
 Qed.
 
-Lemma copy_ok e k sl x y s a : plain e ->
-  has_dataset e = true \/ needs_dataset (Copy sl x y) = false ->
+Lemma copy_ok e k sl x y s a : scope e (Copy sl x y) ->
   kinv s -> qseteq (quads s) a -> step_ok e k (Copy sl x y) s a.
 Proof.
-  intros Hp Hd Hk Ha. destruct (gd_scope e x y Hd) as [Hx Hy].
-  unfold step_ok. simpl. unfold evalCopy. rewrite !god_plain by auto. rewrite same_ident_ctx.
+  intros Hd Hk Ha. destruct (gd_scope e sl x y Hd) as [Hx Hy].
+  unfold step_ok. simpl. unfold evalCopy. rewrite !god_spec by auto.
   destruct (N.eqb_spec (gd_cid e x) (gd_cid e y)) as [E|E].
   - exists s. simpl. auto.
-  - set (s1 := g_clear (GCtx (gd_cid e y)) s). rewrite iadd_from_ctx. eexists. split; [reflexivity|split].
-    + intros q. rewrite add_quads_In, in_app_iff, !to_graph_In, q_triples_all_In, graph_of_In.
-      unfold s1. rewrite !g_clear_In, drop_graph_In, (Ha q). simpl. rewrite <- (Ha (fst q, gd_cid e x)). tauto.
-    + apply kinv_add_quads, kinv_clear. auto.
+  - simpl. eexists. split; [reflexivity|split].
+    + intros q. rewrite iadd_from_In, in_app_iff, to_graph_In, graph_of_In.
+      rewrite !g_clear_In, drop_graph_In, (Ha q). simpl. rewrite <- (Ha (fst q, gd_cid e x)). tauto.
+    + apply kinv_iadd_from, kinv_clear. auto.
 Qed.
 
-Lemma move_ok e k sl x y s a : plain e ->
-  has_dataset e = true \/ needs_dataset (Move sl x y) = false ->
+Lemma move_ok e k sl x y s a : scope e (Move sl x y) ->
   kinv s -> qseteq (quads s) a -> step_ok e k (Move sl x y) s a.
 Proof.
-  intros Hp Hd Hk Ha. destruct (gd_scope e x y Hd) as [Hx Hy].
-  unfold step_ok. simpl. unfold evalMove. rewrite !god_plain by auto. rewrite same_ident_ctx.
+  intros Hd Hk Ha. destruct (gd_scope e sl x y Hd) as [Hx Hy].
+  unfold step_ok. simpl. unfold evalMove. rewrite !god_spec by auto.
   destruct (N.eqb_spec (gd_cid e x) (gd_cid e y)) as [E|E].
   - exists s. simpl. auto.
-  - set (s1 := g_clear (GCtx (gd_cid e y)) s). rewrite iadd_from_ctx.
-    set (s2 := add_quads (to_graph (gd_cid e y) (q_triples (None, None, None) (gd_cid e x) (quads s1))) s1).
-    exists (forget (gd_cid e x) (g_clear (GCtx (gd_cid e x)) s2)). split; [reflexivity|split].
-    + intros q. change (quads (forget (gd_cid e x) (g_clear (GCtx (gd_cid e x)) s2)))
-        with (quads (g_clear (GCtx (gd_cid e x)) s2)).
-      rewrite g_clear_In, drop_graph_In. unfold s2.
-      rewrite add_quads_In, in_app_iff, !to_graph_In, q_triples_all_In, graph_of_In.
-      unfold s1. rewrite !g_clear_In, drop_graph_In, (Ha q). simpl. rewrite <- (Ha (fst q, gd_cid e x)). tauto.
-    + apply kinv_remove_graph. unfold s2. apply kinv_add_quads. unfold s1. apply kinv_clear. auto.
+  - simpl. eexists. split; [reflexivity|split].
+    + intros q. unfold remove_graph.
+      match goal with |- In q (quads (forget ?c ?s0)) <-> _ => change (quads (forget c s0)) with (quads s0) end.
+      rewrite g_clear_In, drop_graph_In, iadd_from_In, in_app_iff, to_graph_In, graph_of_In.
+      rewrite !g_clear_In, drop_graph_In, (Ha q). simpl. rewrite <- (Ha (fst q, gd_cid e x)). tauto.
+    + apply kinv_remove_graph, kinv_iadd_from, kinv_clear. auto.
 Qed.
